@@ -126,7 +126,7 @@ def run_c13(ctx):
                 args = [cbin, "compile", "-f", f]
                 for lang in ALL:
                     args += [FLAG[lang], os.path.join(o, lang)]
-                subprocess.run(args, cwd=d, capture_output=True, timeout=120)
+                subprocess.run(args, cwd=d, capture_output=True, timeout=600)
                 trees.append(read_tree(o))
             ctx.count("cli_process_pairs")
             if trees[0] != trees[1]:
@@ -145,7 +145,7 @@ def run_c13(ctx):
                 args = [cbin, "compile", "-f", f]
                 for lang in langs:
                     args += [FLAG[lang], os.path.join(o, lang)]
-                p = subprocess.run(args, cwd=d, capture_output=True, timeout=120)
+                p = subprocess.run(args, cwd=d, capture_output=True, timeout=600)
                 tree = read_tree(o)
                 outcomes.setdefault((p.returncode, tuple(sorted((k, hashlib.sha256(v).hexdigest()) for k, v in tree.items()))), run)
                 ctx.count("cli_partial_failure_runs")
@@ -271,7 +271,7 @@ def run_c14(ctx):
                 args = [cbin, "compile", "-f", f]
                 for lang in langs:
                     args += [FLAG[lang], os.path.join(o, lang)]
-                subprocess.run(args, cwd=d, capture_output=True, timeout=120)
+                subprocess.run(args, cwd=d, capture_output=True, timeout=600)
                 return {lang: read_tree(os.path.join(o, lang)) for lang in langs}
             together = cli(ALL, "all")
             for lang in ALL:
